@@ -149,3 +149,126 @@ pub fn read_fd_to_string(fd: i32) -> String {
     let _ = f.read_to_string(&mut s);
     s
 }
+
+/// How a streaming child ended.
+#[derive(Debug, Clone, PartialEq)]
+pub enum End {
+    Exited(i32),
+    Signaled(i32),
+    Timeout,
+    Infra(String),
+}
+
+/// Fork; the child runs `f(fd)` writing newline-separated JSON records to `fd` as it goes (so
+/// they survive `_exit`, abort or death by signal). Returns every complete record and how the
+/// child ended. If `f` returns, the child `_exit(0)`s.
+pub fn fork_stream(timeout_ms: i32, f: impl FnOnce(i32)) -> (Vec<Value>, End) {
+    let mut fds = [0i32; 2];
+    if unsafe { libc::pipe(fds.as_mut_ptr()) } != 0 {
+        return (vec![], End::Infra("pipe".into()));
+    }
+    let pid = unsafe { libc::fork() };
+    if pid < 0 {
+        unsafe {
+            libc::close(fds[0]);
+            libc::close(fds[1]);
+        }
+        return (vec![], End::Infra(format!("fork: {}", std::io::Error::last_os_error())));
+    }
+    if pid == 0 {
+        unsafe { libc::close(fds[0]) };
+        normalise_signals();
+        f(fds[1]);
+        unsafe { libc::_exit(0) };
+    }
+    unsafe { libc::close(fds[1]) };
+    let mut buf: Vec<u8> = Vec::new();
+    let start = std::time::Instant::now();
+    let mut timed_out = false;
+    loop {
+        let left = timeout_ms as i64 - start.elapsed().as_millis() as i64;
+        if left <= 0 {
+            timed_out = true;
+            break;
+        }
+        let mut p = libc::pollfd { fd: fds[0], events: libc::POLLIN, revents: 0 };
+        let r = unsafe { libc::poll(&mut p, 1, left as i32) };
+        if r < 0 {
+            if std::io::Error::last_os_error().kind() == std::io::ErrorKind::Interrupted {
+                continue;
+            }
+            break;
+        }
+        if r == 0 {
+            timed_out = true;
+            break;
+        }
+        let mut tmp = [0u8; 65536];
+        let n = unsafe { libc::read(fds[0], tmp.as_mut_ptr() as *mut _, tmp.len()) };
+        if n < 0 {
+            if std::io::Error::last_os_error().kind() == std::io::ErrorKind::Interrupted {
+                continue;
+            }
+            break;
+        }
+        if n == 0 {
+            break;
+        }
+        buf.extend_from_slice(&tmp[..n as usize]);
+    }
+    unsafe { libc::close(fds[0]) };
+    let end;
+    if timed_out {
+        unsafe {
+            libc::kill(pid, libc::SIGKILL);
+            let mut st = 0;
+            libc::waitpid(pid, &mut st, 0);
+        }
+        end = End::Timeout;
+    } else {
+        let mut st = 0;
+        loop {
+            let r = unsafe { libc::waitpid(pid, &mut st, 0) };
+            if r == pid {
+                break;
+            }
+            if r < 0 && std::io::Error::last_os_error().kind() != std::io::ErrorKind::Interrupted {
+                return (vec![], End::Infra("waitpid".into()));
+            }
+        }
+        end = if libc::WIFSIGNALED(st) { End::Signaled(libc::WTERMSIG(st)) } else { End::Exited(libc::WEXITSTATUS(st)) };
+    }
+    let text = String::from_utf8_lossy(&buf);
+    let recs = text.lines().filter_map(|l| serde_json::from_str::<Value>(l).ok()).collect();
+    (recs, end)
+}
+
+/// Child side: emit one record.
+pub fn emit(fd: i32, v: &Value) {
+    let mut s = serde_json::to_vec(v).unwrap_or_default();
+    s.push(b'\n');
+    write_all_fd(fd, &s);
+}
+
+/// Snapshot of all dispositions (handler address, flags) for signals 1..=64.
+pub fn dispositions() -> Vec<(usize, i32)> {
+    let mut v = Vec::with_capacity(64);
+    for s in 1..65 {
+        let mut cur: libc::sigaction = unsafe { std::mem::zeroed() };
+        let r = unsafe { libc::sigaction(s, std::ptr::null(), &mut cur) };
+        if r != 0 {
+            v.push((usize::MAX, -1));
+        } else {
+            v.push((cur.sa_sigaction, cur.sa_flags));
+        }
+    }
+    v
+}
+
+pub fn fd_valid(fd: i32) -> bool {
+    unsafe { libc::fcntl(fd, libc::F_GETFD) != -1 }
+}
+
+pub fn open_fd_count() -> usize {
+    std::fs::read_dir("/proc/self/fd").map(|d| d.count()).unwrap_or(0)
+}
